@@ -290,6 +290,11 @@ def main():
         k = len(pj)
         pj += [dict(conf=dict(clustering=False, random_state=lo_), seed=77, n_total=24), dict(conf=dict(clustering=False, random_state=hi_), seed=77, n_total=24)]
         meta.append((k, k + 1, "differ"))
+    # an integer seed of numpy type is the same seed: equal to the run with the python int, under another ambient stream
+    k = len(pj)
+    pj += [dict(conf=dict(clustering=False, random_state=5), seed=21, n_total=24), dict(conf=dict(clustering=False, random_state="np:5"), seed=8888, n_total=24, pre_draws=13),
+           dict(conf=dict(clustering=False, random_state="np:6"), seed=21, n_total=24)]
+    meta += [(k, k + 1, "same"), (k + 1, k + 2, "differ")]
     R = pairs.run_many(pj)
     P = [pairs.project_pair(R[a], R[b], kind=kind, exact=True) for a, b, kind in meta]
     for rr in R:
